@@ -384,11 +384,16 @@ def check(run) -> None:
         run.case(json.dumps(c["h"], sort_keys=True))
         judge(run, c, o, c["origin"])
     scases = [{"kind": kd, "t2_k": ks, "h": hi} for kd in ("lru", "bytes") for ks in (None, 0, 1, 2, 64) for hi in range(len(STAGE_HISTS))]
+    # ... and with T1 caps so tight that every traversal runs into them: a hit must replay the cap counters of the traversal too
+    scases += [{"kind": kd, "t2_k": None, "h": hi, "tight": True} for kd in ("lru", "bytes") for hi in range(len(STAGE_HISTS))]
     for c, fl in zip(scases, pmap(stage_level_case, scases, chunk=2)):
         run.traces += 1
         run.case(("stage_level", json.dumps(c, sort_keys=True)))
         if not fl:
             run.ok("HitEqualsFresh.stage_level_equal")
+        if any(cl_ == "__vacuous__" for cl_, _ in fl):
+            from ..tlc import TLCError
+            raise TLCError("C05: " + fl[0][1])
         for clause, msg in fl:
             run.fail(clause, {"cache": "stage-level", "kind": c["kind"]}, c, msg, replay={"stage": c})
     if witnesses:
@@ -417,6 +422,8 @@ def stage_level_case(case) -> List[Tuple[str, str]]:
     for cached in (True, False):
         over = {"t1": {"cache": {"enabled": cached and kind == "lru", "max_entries": 64, "ttl_s": 3600}},
                 "t2": {"cache": {"enabled": cached and kind == "lru", "max_entries": 64, "ttl_s": 3600}, "sim_threshold": -1.0, "k_retrieval": 8}}
+        if case.get("tight"):
+            over["t1"].update({"radius_cap": 1, "node_budget": 0.25, "iter_cap": 1})
         if kind == "bytes":
             over["perf"] = {"enabled": True, "t1": {"cache": {"max_entries": 64 if cached else 0, "max_bytes": 1 << 20 if cached else 0}},
                             "t2": {"cache": {"max_entries": 64 if cached else 0, "max_bytes": 1 << 20 if cached else 0}}}
@@ -443,6 +450,8 @@ def stage_level_case(case) -> List[Tuple[str, str]]:
             seq.append((_proj_t1(t1), _proj_t2(t2)))
         runs[cached] = seq
     E.reset_global_caches()
+    if case.get("tight") and not any(x and any(x[0]["metrics"].get(k_, 0) for k_ in ("radius_cap_hits", "layer_cap_hits", "node_budget_hits")) for x in runs[False]):
+        fails.append(("__vacuous__", f"tight T1 caps never hit in history {hist}"))
     for i, (a, b) in enumerate(zip(runs[True], runs[False])):
         if a != b:
             stage = "t1" if a[0] != b[0] else "t2"
